@@ -179,6 +179,51 @@ func c15() {
 		distinct["fault:"+f.kind] = true
 		mu.Unlock()
 	})
+	// a missing policy file stays missing although permissive files of the same name exist in other plausible places
+	// (next to the executable, in the home directory, in the parent and in a sub-directory of the working directory)
+	for vi, variant := range []string{"relative-name", "default-name", "relative-with-dir", "dot-slash"} {
+		dir := filepath.Join(root, fmt.Sprintf("decoy%d", vi))
+		binDir, work, home := filepath.Join(dir, "bin"), filepath.Join(dir, "parent", "work"), filepath.Join(dir, "home")
+		for _, d := range []string{binDir, work, home, filepath.Join(work, "sub"), filepath.Join(work, "conf")} {
+			os.MkdirAll(d, 0o755)
+		}
+		sb := filepath.Join(binDir, "sandbox")
+		copyFile(sb, sandbox)
+		permissive := "seccomp:\n  default_action: allow\n  syscalls:\n  - action: allow\n    names:\n    - getppid\n"
+		for _, d := range []string{binDir, home, filepath.Join(dir, "parent"), filepath.Join(work, "sub"), dir} {
+			for _, n := range []string{"seccomp.yml", "strict.yml"} {
+				os.WriteFile(filepath.Join(d, n), []byte(permissive), 0o644)
+			}
+		}
+		cp := filepath.Join(work, "case.json")
+		writeJSON(cp, probeCase)
+		marker := filepath.Join(work, "marker")
+		var args []string
+		switch variant {
+		case "relative-name":
+			args = []string{"-policy", "strict.yml", target, "probe", cp}
+		case "default-name":
+			args = []string{target, "probe", cp}
+		case "relative-with-dir":
+			args = []string{"-policy", "conf/strict.yml", target, "probe", cp}
+		default:
+			args = []string{"-policy", "./strict.yml", target, "probe", cp}
+		}
+		os.Remove(marker)
+		cmd := exec.Command(sb, args...)
+		cmd.Dir = work
+		cmd.Env = append(os.Environ(), "VERIF_MARKER="+marker, "HOME="+home)
+		out, err := cmd.CombinedOutput()
+		_, merr := os.Stat(marker)
+		run.Count("fault_runs", 1)
+		byKind["policy-file-missing-with-decoys:"+variant]++
+		distinct["fault:decoy:"+variant] = true
+		if merr == nil || err == nil {
+			run.Violation("missing-policy-found-elsewhere:"+variant, fmt.Sprintf("the policy file named by %v does not exist in the working directory; files of the same name next to the executable, in $HOME, in the parent and in a sub-directory must not be used: target started=%v exit error=%v output=%s", args[:min(2, len(args))], merr == nil, err, tail(string(out), 200)),
+				map[string]any{"check": "C15", "variant": variant, "args": args})
+		}
+		os.RemoveAll(dir)
+	}
 	// target missing: exec error -> non-zero exit
 	{
 		dir := filepath.Join(root, "missing-target")
